@@ -206,7 +206,7 @@ func parseAgain(op *engine.Op, b []byte) string {
 	return obs.Observe(res.Val, obsOpt)
 }
 
-var obsOpt = &obs.Options{}
+var obsOpt = &obs.Options{SelfEquals: true}
 
 // callables lists what a task may call on the value: every exported
 // argument-free method (mutators and generators excluded), Equals/Equal
